@@ -675,19 +675,20 @@ class InterpolatableFunction(ABC):
         # what to append to lower end
         if newMin < self._rangeMin and pointsMin > 0:
 
-            ## Point spacing to use at new lower end
-            spacing = np.abs(self._rangeMin - newMin) / pointsMin
-            # pointsMin points from newMin up to one spacing before the current lower end
-            appendPointsMin = newMin + spacing * np.arange(pointsMin)
+            # pointsMin equally spaced points, from exactly newMin up to one spacing
+            # before the current lower end
+            appendPointsMin = np.linspace(
+                newMin, self._rangeMin, pointsMin, endpoint=False
+            )
         else:
             appendPointsMin = np.array([])
 
         # what to append to upper end
         if newMax > self._rangeMax and pointsMax > 0:
 
-            ## Point spacing to use at new upper end
-            spacing = np.abs(newMax - self._rangeMax) / pointsMax
-            appendPointsMax = self._rangeMax + spacing * np.arange(1, pointsMax + 1)
+            # pointsMax equally spaced points, from one spacing after the current upper
+            # end up to exactly newMax
+            appendPointsMax = np.linspace(self._rangeMax, newMax, pointsMax + 1)[1:]
         else:
             appendPointsMax = np.array([])
 
